@@ -267,7 +267,8 @@ def operators(trace, tier, for_c19=False):
             f = dict(base)
             f[jp] = json.dumps(_set(meta, key, None, remove=True)).encode()
             yield ("meta-rm:%s:%s" % (rel, key), f, meta_verdict(key, None, True, meta, others))
-            for r in REPL + ([val + 1, val - 1] if isinstance(val, int) and not isinstance(val, bool) else []):
+            for r in REPL + ([val + 1, val - 1] if isinstance(val, int) and not isinstance(val, bool) else []) + \
+                    ([val + 0.9, val + 0.5] if key == "version" else []):      # "must have the value 3": 3.9 is not 3
                 if r == val:
                     continue
                 f = dict(base)
